@@ -63,6 +63,19 @@ type namedB bool
 type namedF float64
 type c04nh template.HTML
 
+type c04stack []int
+
+func (s *c04stack) Pop() int {
+	if len(*s) == 0 {
+		return -1
+	}
+	v := (*s)[len(*s)-1]
+	*s = (*s)[:len(*s)-1]
+	return v
+}
+func (s *c04stack) Push(v int) int { *s = append(*s, v); return len(*s) }
+func (s *c04stack) Clear() string  { *s = (*s)[:0]; return "" }
+
 type c04self struct{}
 
 func (p c04self) Interface() interface{} { return p }
@@ -378,6 +391,13 @@ func init() {
 		// the repaired defects stay in the corpus
 		for _, t := range []string{`<%= vm[vnil] %>`, `<% vmi["b"] = "x" %>`, `<% vmi[1] = 1 %>`, `<% vxs[0] = vnil %>`, `<%= vxs[0 - 1] %>`, `<%= len(1) %>`, `<%= truncate("abc", {size: "x"}) %>`, `<% let g = fn(a, b) { return a } %><%= g(1) %>`, `<%= vt1.NilP.Hello("x") %>`, `<%= {let: 1} %>`} {
 			e.c04case("corpus", t, true, nil)
+		}
+		// a loop over a POINTER to a slice whose body shortens (or lengthens) that slice through the pointer:
+		// the loop ends early or goes on - it does not index past the end
+		for _, tm := range []string{"<%= for (i, v) in stack { %><%= stack.Pop() %>,<% } %>", "<%= for (v) in stack { %><%= stack.Pop() %><%= stack.Pop() %>;<% } %>", "<%= for (i, v) in stack { %><%= stack.Push(i) %><%= if (i > 6) { break } %><% } %>",
+			"<%= for (v) in stack { %><%= for (w) in stack { %><%= stack.Pop() %><% } %><% } %>", "<%= for (v) in stack { %><%= stack.Clear() %>x<% } %>|<%= len(stack) %>"} {
+			st := c04stack{1, 2, 3, 4}
+			e.c04case("shrinking-slice", tm, false, map[string]interface{}{"stack": &st})
 		}
 		// block helpers called WITHOUT a block, alone and followed by what would replay the block
 		for _, tm := range []string{`<% contentFor("a") %><%= contentOf("a") %>`, `<% contentFor("a") %><%= contentOf("a", {"label": "x"}) %>`, `<% contentFor("a") %><%= contentOf("a") { %>d<% } %>`,
